@@ -71,8 +71,9 @@ struct TimeCost {
   int pert_comp = -1; double pert = 0;  // C19: one gradient component deliberately wrong
   double operator()(const std::vector<double> &Ts, Eigen::VectorXd &grad) const {
     double c = 0; const int n = (int)Ts.size();
-    if (mode == 2) { double s = 0; for (double t : Ts) s += t; for (int i = 0; i < n; ++i) grad(i) = 2 * s; c = s * s; }
-    else for (int i = 0; i < n; ++i) { double w = 1.0 + 0.25 * i; c += w * Ts[i] + (mode == 1 ? 0.5 * Ts[i] * Ts[i] : 0.0); grad(i) = w + (mode == 1 ? Ts[i] : 0.0); }
+    // accumulating form (+=): the library hands every functor zeroed output buffers on every call
+    if (mode == 2) { double s = 0; for (double t : Ts) s += t; for (int i = 0; i < n; ++i) grad(i) += 2 * s; c = s * s; }
+    else for (int i = 0; i < n; ++i) { double w = 1.0 + 0.25 * i; c += w * Ts[i] + (mode == 1 ? 0.5 * Ts[i] * Ts[i] : 0.0); grad(i) += w + (mode == 1 ? Ts[i] : 0.0); }
     if (pert_comp >= 0 && pert_comp < n) grad(pert_comp) += pert;
     return c;
   }
@@ -83,7 +84,7 @@ struct WaypointCost {
   int pert_row = -1, pert_col = 0; double pert = 0;  // C19
   template <class Q, class G> double operator()(const Q &q, G &gq) const {
     double c = 0; const int n = (int)q.rows(), D = (int)q.cols();
-    for (int i = 0; i < n; ++i) for (int d = 0; d < D; ++d) { double w = 0.5 + 0.125 * i + 0.0625 * d; c += 0.5 * w * q(i, d) * q(i, d) + 0.25 * q(i, d); gq(i, d) = w * q(i, d) + 0.25; }
+    for (int i = 0; i < n; ++i) for (int d = 0; d < D; ++d) { double w = 0.5 + 0.125 * i + 0.0625 * d; c += 0.5 * w * q(i, d) * q(i, d) + 0.25 * q(i, d); gq(i, d) += w * q(i, d) + 0.25; }   // accumulating form: the library hands the functor a zeroed output buffer on EVERY call (a sum of terms written with += is the natural way to write such a functor; seeded change C19-m8)
     if (mode == 1) for (int i = 0; i + 1 < n; ++i) for (int d = 0; d < D; ++d) { c += 0.25 * q(i, d) * q(i + 1, d); gq(i, d) += 0.25 * q(i + 1, d); gq(i + 1, d) += 0.25 * q(i, d); }
     if (pert_row >= 0 && pert_row < n) gq(pert_row, pert_col) += pert;
     return c;
@@ -125,8 +126,10 @@ template <int DIM> struct RunCost {
     V gl, hl; for (int d = 0; d < DIM; ++d) { gl(d) = 1.0 + 0.5 * d; hl(d) = 0.25 - 0.125 * d; }
     const double base = 0.5 * (ap * p.squaredNorm() + av * v.squaredNorm() + aa * a.squaredNorm() + aj * j.squaredNorm() + as * s.squaredNorm()) + apv * p.dot(v) + lin * (gl.dot(p) + hl.dot(v));
     const double m = W * ph;
-    gp = m * (ap * p + apv * v + lin * gl); gv = m * (av * v + apv * p + lin * hl); ga = m * aa * a; gj = m * aj * j; gs = m * as * s;
-    gt = W * base * dph + 2 * bt * tg;
+    // accumulating form, and outputs whose weight is zero are not touched at all: the library zero-initialises gp..gs and gt for every sample
+    if (ap != 0 || apv != 0 || lin != 0) gp += m * (ap * p + apv * v + lin * gl); if (av != 0 || apv != 0 || lin != 0) gv += m * (av * v + apv * p + lin * hl);
+    if (aa != 0) ga += m * aa * a; if (aj != 0) gj += m * aj * j; if (as != 0) gs += m * as * s;
+    if (phi != 0 || bt != 0) gt += W * base * dph + 2 * bt * tg;
     if (pert_out >= 0) { switch (pert_out) { case 0: gp(pert_comp) += pert; break; case 1: gv(pert_comp) += pert; break; case 2: ga(pert_comp) += pert; break; case 3: gj(pert_comp) += pert; break; case 4: gs(pert_comp) += pert; break; default: gt += pert; } }
     if (i == inf_seg) return std::numeric_limits<double>::infinity();
     return m * base + bt * tg * tg;
